@@ -102,6 +102,9 @@ impl AbortHandle {
     /// ## Panics
     /// Panics if called outside of shuttle context, i.e. if there is no execution context.
     pub fn is_finished(&self) -> bool {
+        // Observing another task's state is a visible operation, so it needs a scheduling point
+        thread::switch();
+
         ExecutionState::with(|state| {
             let task = state.get(self.task_id);
             task.finished()
@@ -168,6 +171,9 @@ impl<T> JoinHandle<T> {
     /// ## Panics
     /// Panics if called outside of shuttle context, i.e. if there is no execution context.
     pub fn is_finished(&self) -> bool {
+        // Observing another task's state is a visible operation, so it needs a scheduling point
+        thread::switch();
+
         ExecutionState::with(|state| {
             let task = state.get(self.task_id);
             task.finished()
